@@ -4,6 +4,7 @@ import (
 	"context"
 	"errors"
 	"fmt"
+	"sync"
 	"time"
 
 	"vsim/wire"
@@ -34,6 +35,9 @@ type RawConn struct {
 	// Queue: follow-up frames a hostile generator wants sent next on this connection
 	Queue     [][]byte
 	QueueDesc []string
+	// wmu: goroutines of one raw peer that share a connection write whole buffers, one
+	// at a time (a Write that meets a full link is cut, see Conn.Write)
+	wmu sync.Mutex
 }
 
 func (w *World) newRawPeer(name, host string) *RawPeer {
@@ -108,6 +112,8 @@ func (c *RawConn) Send(b []byte) error {
 			b[i] = r ^ byte(i)
 		}
 	}
+	c.wmu.Lock()
+	defer c.wmu.Unlock()
 	_, err := c.c.Write(b)
 	return err
 }
